@@ -376,13 +376,14 @@ class MoneyMarket(FinancialAssetMarket):
         dem_terms = []
         self._CheckIssuer()
         for s in self.SearchListSource.GetSectors():
-            if not s.HasF:
-                continue
-            if s.Code == self.IssuerShortCode:
+            if s.Code == self.IssuerShortCode and not isinstance(s, Market):
+                # (The issuer may be a sector that keeps no financial assets of its own, like a mint.)
                 Logger('Found Issuer', priority=3)
                 s.AddVariable('SUP_' + self.Code, 'Supply of ' + self.LongName, self.GetVariableName(dem_name))
                 self.AddVariable('SUP_' + self.Code, 'Supply of ' + self.LongName,
                                  s.GetVariableName('SUP_' + self.Code))
+                continue
+            if not s.HasF:
                 continue
             try:
                 # If the Sector already has demand for this, add the term.
